@@ -29,14 +29,22 @@ Inductive collkind :=
 Inductive iterkind := IListIter | ITupleIter | IGenerator | IMapObj | IZipObj | ICustomIterator.
 Inductive flavour := FDataclass | FAnnotated | FSlots | FVars.
 
-(* what the code reads from the class of a structured instance *)
+(* what the code reads from the class of a structured instance.
+   The class may be written directly or DERIVED (subclass of a dataclass / annotated / slotted class, decorated again
+   or not, adding or re-declaring members): every entry is the fact as the code obtains it, which for a derived class
+   is a fact about the whole MRO -- is_dataclass and dataclasses.fields follow the inherited __dataclass_fields__
+   (extended only by a decorated subclass), typing.get_type_hints merges the annotations of the MRO (bases first, a
+   re-declared name keeps its position), hasattr(tp, "__slots__") is inherited, and the slot NAMES are collected over
+   the MRO (serdes._all_slots; the attribute tp.__slots__ alone names only what the class itself adds, see
+   C18_inherited_slots_reading).  The flavour of a derived class is the flavour of the family it belongs to. *)
 Record clsdesc := {
-  c_flavour   : flavour;               (* how the class was written (used by the specification only) *)
+  c_flavour   : flavour;               (* the family of the class (used by the specification only) *)
   c_dataclass : bool;                  (* dataclasses.is_dataclass(tp) *)
   c_dc_fields : list string;           (* [f.name for f in dataclasses.fields(tp)]  (ClassVar excluded by dataclasses) *)
   c_hints     : list string;           (* keys of typing.get_type_hints(tp), KW_ONLY removed (ClassVar included) *)
   c_sig       : list string;           (* parameter names of inspection.signature(tp) (the exhaustive fallback) *)
-  c_slots     : option (list string)   (* tp.__slots__ when hasattr(tp, "__slots__") *)
+  c_slots     : option (list string)   (* None unless hasattr(tp, "__slots__"); else the names in the __slots__ of
+                                          every class of the MRO, bases first (serdes._all_slots(tp)) *)
 }.
 
 Inductive val :=
@@ -46,7 +54,10 @@ Inductive val :=
 | VBytes (b : list N)
 | VColl (k : collkind) (l : list val)                 (* elements in iteration order *)
 | VDict (k : mapkind) (l : list (val * val))          (* items in iteration order; a TypedDict instance is a dict *)
-| VNamed (fields : list string) (l : list val)        (* named tuple: cls._fields and the tuple contents *)
+| VNamed (fields : list string) (l : list val)        (* named tuple: cls._fields and the tuple contents; the class may be
+                                                         a typing.NamedTuple, a collections.namedtuple or a subclass
+                                                         of either (with or without own annotations, __slots__, __dict__):
+                                                         the code reads only issubclass(tuple) and the inherited _fields *)
 | VObj (c : clsdesc)
        (slotvals : list (string * val))               (* values held in slots *)
        (dict : option (list (string * val)))          (* instance __dict__ in insertion order; None: no __dict__ *)
